@@ -67,6 +67,10 @@ pub(crate) fn on_process(c: &Completion) -> bool {
     }
 }
 
+pub(crate) unsafe fn call_process(c: &Completion) {
+    unsafe { c.process() }
+}
+
 /// Hook placed (cfg(kani)) right after the reserved-value filter of `process`, before any pointer is
 /// formed from `user_data`.  Returns true (= return from process) in stop-at-dispatch mode.
 pub(crate) fn on_dispatch(c: &Completion) -> bool {
